@@ -48,6 +48,7 @@ type ty struct {
 	st     *types.Struct
 	src    types.Type
 	args   []ty // kFunc: parameter types; elem = result type
+	str    bool // kList: a Go string
 }
 
 type lparam struct {
@@ -204,8 +205,15 @@ func (f *fn) tyOf(t types.Type) ty {
 			return ty{k: kInt, bits: 16, src: t}
 		case types.Uint8:
 			return ty{k: kInt, bits: 8, src: t}
+		case types.String, types.UntypedString: // a string is its bytes (ranging over one decodes runes: refused)
+			return ty{k: kList, elem: &ty{k: kInt, bits: 8}, src: t, str: true}
 		case types.Invalid:
 			return ty{}
+		}
+	case *types.Array: // an array is a list of its length (indexing and element assignment only)
+		e := f.tyOf(b.Elem())
+		if e.k == kInt || e.k == kBool {
+			return ty{k: kList, elem: &e, src: t}
 		}
 	case *types.Slice:
 		e := f.tyOf(b.Elem())
@@ -389,6 +397,12 @@ func (f *fn) constant(e ast.Expr) (string, bool) {
 			s = "(" + s + ")"
 		}
 		return s, true
+	case constant.String:
+		var bs []string
+		for _, c := range []byte(constant.StringVal(tv.Value)) {
+			bs = append(bs, fmt.Sprint(c))
+		}
+		return "([" + strings.Join(bs, ", ") + "] : List Int)", true
 	}
 	return "", false
 }
@@ -469,7 +483,7 @@ func (f *fn) pathParam(n ast.Node, i int, p string, ord []int, t ty) string {
 
 func (f *fn) global(n ast.Node, v *types.Var) string {
 	t := f.tyOf(v.Type())
-	if t.k != kInt && t.k != kBool {
+	if t.k != kInt && t.k != kBool && !(t.k == kList && (t.elem.k == kInt || t.elem.k == kBool)) {
 		f.fail(n, "package-level variable %s has a type outside the fragment", v.Name())
 	}
 	return f.param(v.Pkg().Name()+"_"+v.Name(), lparam{ltype: f.lean(t), src: -1, glob: v})
@@ -643,7 +657,7 @@ func (f *fn) cond(e ast.Expr) string {
 				}
 			}
 			ta, tb := f.typeOf(x.X), f.typeOf(x.Y)
-			if !(ta.k == tb.k && (ta.k == kInt || ta.k == kTime || (ta.k == kBool && (x.Op == token.EQL || x.Op == token.NEQ)))) {
+			if !(ta.k == tb.k && (ta.k == kInt || ta.k == kTime || ((ta.k == kBool || ta.k == kList && ta.str && tb.str) && (x.Op == token.EQL || x.Op == token.NEQ)))) {
 				f.fail(e, "comparison of values outside the fragment")
 			}
 			op := map[token.Token]string{token.EQL: " = ", token.NEQ: " ≠ ", token.LSS: " < ", token.LEQ: " ≤ ", token.GTR: " > ", token.GEQ: " ≥ "}[x.Op]
@@ -705,11 +719,30 @@ func (f *fn) call(x *ast.CallExpr, nres int) string {
 		}
 	case *types.Builtin:
 		switch c.Name() {
+		case "append": // a new list (aliasing of the backing array is outside the fragment)
+			if t := f.typeOf(x); t.k == kList && len(args) >= 1 {
+				s := paren(f.expr(args[0]))
+				if x.Ellipsis.IsValid() && len(args) == 2 {
+					return s + " ++ " + paren(f.expr(args[1]))
+				}
+				var es []string
+				for _, a := range args[1:] {
+					es = append(es, f.expr(a))
+				}
+				return s + " ++ [" + strings.Join(es, ", ") + "]"
+			}
 		case "make":
+			if t := f.typeOf(x); t.k == kList && len(args) == 3 { // make([]T, 0, cap)
+				if n, ok := f.constInt(args[1]); ok && n.Sign() == 0 {
+					c := paren(f.expr(args[2]))
+					f.guard("(0 : Int) ≤ " + c)
+					return "([] : " + f.lean(t) + ")"
+				}
+			}
 			if t := f.typeOf(x); t.k == kList && len(args) == 2 && (t.elem.k == kInt || t.elem.k == kBool) {
 				n := paren(f.expr(args[1]))
 				f.guard("(0 : Int) ≤ " + n)
-				return "List.replicate (" + n + ").toNat " + map[kind]string{kInt: "(0 : Int)", kBool: "false"}[t.elem.k]
+				return "List.replicate (Int.toNat " + n + ") " + map[kind]string{kInt: "(0 : Int)", kBool: "false"}[t.elem.k]
 			}
 		case "len":
 			if f.typeOf(args[0]).k == kList {
@@ -861,8 +894,17 @@ func (f *fn) callee(e ast.Expr) string {
 		case *ast.Ident:
 			return x.Name
 		case *ast.SelectorExpr:
-			if id, ok := x.X.(*ast.Ident); ok {
-				return id.Name + "." + x.Sel.Name
+			var parts []string
+			var cur ast.Expr = x
+			for {
+				if s, ok := cur.(*ast.SelectorExpr); ok {
+					parts, cur = append([]string{s.Sel.Name}, parts...), s.X
+					continue
+				}
+				if id, ok := cur.(*ast.Ident); ok {
+					return strings.Join(append([]string{id.Name}, parts...), ".")
+				}
+				return ""
 			}
 		}
 	}
@@ -1019,6 +1061,8 @@ func (f *fn) seq(list []ast.Stmt, k func() string) string {
 		return f.whileLoop(s, memo(rest))
 	case *ast.RangeStmt:
 		return f.rangeLoop(s, memo(rest))
+	case *ast.SwitchStmt:
+		return f.switchStmt(s, memo(rest))
 	case *ast.BranchStmt:
 		if s.Label == nil && s.Tok == token.BREAK && f.brk != nil {
 			return f.brk()
@@ -1038,6 +1082,13 @@ func (f *fn) assign(s *ast.AssignStmt, rest func() string) string {
 	if len(s.Lhs) == 1 && len(s.Rhs) == 1 {
 		if r, ok := f.structAssign(s, rest); ok {
 			return r
+		}
+		if sel, ok := s.Lhs[0].(*ast.SelectorExpr); ok && s.Tok == token.ASSIGN { // p.xs = e on a slice field of a struct parameter
+			if _, pp, _, isPath := f.path(sel); isPath && pp != "" && f.typeOf(sel).k == kList {
+				val := f.expr(s.Rhs[0])
+				name, t, _ := f.place(sel)
+				return f.rebind(name, t, val, rest)
+			}
 		}
 	}
 	if s.Tok != token.DEFINE && s.Tok != token.ASSIGN { // x op= e
@@ -1329,6 +1380,7 @@ func (u *Unit) Slice(pkgRel, recv, name, leanName string, pats []string) (sig *S
 	sel[len(sel)-1] = last
 	var f *fn
 	var body string
+	var loopRes []string
 	for pass := 1; pass <= 2; pass++ {
 		prev := f
 		f = &fn{u: u, pi: pi, obj: obj, names: map[types.Object]string{}, used: map[string]bool{leanName: true}, structs: map[types.Object]int{},
@@ -1364,6 +1416,20 @@ func (u *Unit) Slice(pkgRel, recv, name, leanName string, pats []string) (sig *S
 				lhs = s.Lhs[0]
 			case *ast.IncDecStmt:
 				lhs = s.X
+			case *ast.RangeStmt, *ast.ForStmt: // a loop: the result is what it writes among the slice's parameters
+				mod := f.assigned(last)
+				var vals []string
+				loopRes = nil
+				for _, p := range f.order {
+					if mod[p.name] {
+						vals, loopRes = append(vals, p.name), append(loopRes, p.ltype)
+					}
+				}
+				if len(vals) == 0 {
+					f.fail(last, "the selected loop assigns none of the slice's free variables")
+				}
+				f.sig.NRes = len(vals)
+				return f.ret(vals)
 			default:
 				f.fail(last, "the last selected statement neither returns nor assigns")
 			}
@@ -1374,7 +1440,7 @@ func (u *Unit) Slice(pkgRel, recv, name, leanName string, pats []string) (sig *S
 			resT = []ty{f.tyOf(o.Type())}
 			return f.ret([]string{f.names[o]})
 		})
-		var rs []string
+		rs := loopRes
 		for _, t := range resT {
 			rs = append(rs, f.lean(t))
 		}
